@@ -173,6 +173,7 @@ func (e *Enc) run() {
 		e.params[fv.Name()] = v
 	}
 	e.findLoops()
+	e.computeNonEscaping()
 	// requires
 	e.curBlock = 0
 	e.reach[0] = "true"
